@@ -64,7 +64,7 @@ CHECKS = [
              "Copy-on-Write; timestamps as integers (absolute time); dropna().empty as a monotone predicate of the window",
      "not_covered": ["unsorted input (pandas raises)", "values inside the slice beyond 'only the last row is blanked' (frame ghost state)"],
      },
-    {"id": "C07", "level": "proof", "modules": ["contracts.C07_mask", "contracts.C19_aggregation"], "bounded": [],
+    {"id": "C07", "level": "proof", "modules": ["contracts.C07_mask", "contracts.C19_aggregation"], "bounded": ["bounded.C07_mask"],
      "technique": "deductive verification on a row-wise model of pandas (pyvc symbolic execution of the real _predict on one arbitrary row, z3)",
      "text": "The real DailyModel._predict (with _initialize_data, _meter_segment, _predict_submodel) is executed on one arbitrary row with "
              "explicitly tagged NaN / +-inf cells: in the returned frame predicted is present iff observed is present, a day without a finite "
@@ -74,7 +74,7 @@ CHECKS = [
              "billing aggregation is covered by C19",
      "not_covered": ["frames with duplicated index labels (data classes remove duplicates)", "frames carrying extra columns with NaN cells"],
      },
-    {"id": "C19", "level": "proof", "modules": ["contracts.C19_aggregation"], "bounded": [],
+    {"id": "C19", "level": "proof", "modules": ["contracts.C19_aggregation"], "bounded": ["bounded.C19_aggregation"],
      "technique": "deductive verification: the real BillingModel.predict executed on the row-wise model with abstract aggregates (pyvc, z3)",
      "text": "For every aggregation argument (all strings symbolically, plus non-string values) the real BillingModel.predict is executed: "
              "unaggregated iff None/any-case 'none', 'monthly' -> MS, 'bimonthly' -> 2MS, anything else rejected; each output column is the "
@@ -84,6 +84,24 @@ CHECKS = [
      "note": "resample().agg() is an abstract aggregate (assumed: groups by calendar period of the series' own index); _predict by its C07 contract; "
              "one row per calendar period and the partition law are exercised by the bounded part",
      "not_covered": ["pandas' binning of resample('MS'/'2MS') itself"],
+     },
+    {"id": "C05", "level": "proof", "modules": ["contracts.C07_mask"], "bounded": ["bounded.C05_independence"],
+     "technique": "deductive verification (row-wise symbolic execution of the real daily _predict: free symbols of the predicted cells) + bounded paired predictions of real hourly/CalTRACK models",
+     "text": "Proof (daily/billing): the symbolic per-row expressions of predicted / predicted_unc / heating_load / cooling_load returned by the "
+             "real _predict contain no symbol of the row's observed cell, for every split layout; observed only decides whether the row is "
+             "predicted at all (C07). Bounded (labelled so): real fitted hourly and CalTRACK-hourly models predict paired reporting sets "
+             "differing only in observed, incl. DST weeks.",
+     "note": "hourly / CalTRACK prediction paths run through scikit-learn, statsmodels and clustering code outside the verifier's reach: bounded only",
+     "not_covered": ["hourly models whose baseline misses (month, weekday) pairs (excluded by the statement's precondition)"],
+     },
+    {"id": "C06", "level": "proof", "modules": ["contracts.C07_mask"], "bounded": ["bounded.C06_dst"],
+     "technique": "deductive verification (row-wise symbolic execution of the real daily _predict) + bounded-exhaustive run-time contract of the DST kernel over all IANA transitions",
+     "text": "Proof (daily/billing): for one arbitrary input row the real _predict returns that row exactly once, in a frame produced by "
+             "sort_index, without writing to the input, with predicted finite exactly when temperature (and usage, when supplied) is finite. "
+             "Bounded-exhaustive (labelled so): the real _get_dst_indices/_transform_dst on every zone of the tz database x every offset change "
+             "2000-2037; real hourly predictions return the reporting frame's index, all finite.",
+     "note": "hourly finiteness depends on fitted coefficients and scalers (bounded only); the data class's contiguous index is C17",
+     "not_covered": ["hourly predictions finite for every fitted model (bounded sample only)"],
      },
 ]
 _NOT_BUILT = "machinery for this property is not built yet (see DESIGN.md §7 build order); not claimed"
